@@ -201,6 +201,15 @@ def group_op(sym, op, N, dom, compound=False, bs=None, presorted=False):
                 else:
                     check(all(rows[i][3] >= rows[m][3] for m in g), 'not a maximum of its group', r, g)
         elif op == 'mergeduplicates':
+            marker = None
+            if n > 0 and sym.flag('marker'):
+                # a declared missing marker, equal to but not the same object as the cells holding it
+                marker = ''.join(['N', 'A'])
+                for r in rows:
+                    if r[3] == 0:
+                        r[3] = ''.join(['N', 'A'])
+                table = [HDR] + rows
+                kw['missing'] = marker
             out = [tuple(r) for r in petl.mergeduplicates(table, key, **kw)]
             exp_hdr = (('k', 'j') if compound else ('k',)) + ('t',) + (() if compound else ('j',)) + ('v',)
             check(out[0] == exp_hdr, 'header', out[0], exp_hdr)
@@ -212,8 +221,10 @@ def group_op(sym, op, N, dom, compound=False, bs=None, presorted=False):
                 else:
                     check(isinstance(tcell, Conflict) and sorted(tcell) == sorted(_tags(rows, g)), 'members', r, g)
                 vcell = r[-1]
-                vs = [rows[i][3] for i in g]
-                if all(v == vs[0] for v in vs):
+                vs = [rows[i][3] for i in g if not (marker is not None and rows[i][3] == marker)]
+                if not vs:
+                    check(vcell == marker, 'all values missing must merge to the marker', r)
+                elif all(v == vs[0] for v in vs):
                     check(vcell == vs[0], 'agreeing values must merge to the value', r, vs)
                 else:
                     check(isinstance(vcell, Conflict), 'disagreeing values must give a Conflict', r, vs)
@@ -340,4 +351,10 @@ def jobs(tier):
     for dom, compound, n in (('Od3', False, N), ('Md2', False, N), ('Od2', True, N - 1)):
         out.append(dict(name='valuecounts/n<=%d/%s/compound=%d' % (n, dom, compound), func='counts_op',
                         params=dict(N=n, dom=dom, compound=compound), budget=B))
+    # a group count never comes from a partially read source: a pass after a failed one fails again or is complete
+    # (history harness of C18 with an injected source failure)
+    for (n, bs) in ((3, 1), (3, 2)):
+        out.append(dict(name='after-failure/aggregate/n=%d/bs=%d' % (n, bs), module='props.c18', func='history',
+                        params=dict(op='aggregate', n=n, bs=bs, cache=True, H=3 if q else 5, nslots=2, fail=True),
+                        budget=B, per_path=20))
     return out
